@@ -16,7 +16,8 @@ RULE = (
     "(create, modify, delete, delete and recreate, modify and restore, rmdir with its files, mkdir "
     "and populate, rename directory, rename file, on sources, outputs, matched paths, tree files "
     "and their directories) are applied while the director watches, and single operations on "
-    "static files at every event of the preceding build; then `rebuild` is compared with stopping "
+    "static files at every event of the preceding build, and sequences that span two watch "
+    "phases with a rebuild in between (a globbing step that stays pending); then `rebuild` is compared with stopping "
     "the director and starting a new one on the same tree and database; the kernel's real inotify "
     "delivers the events, only their delivery moments are explored; non-trivial: at least one "
     "operation touched a path the workflow knows"
@@ -31,8 +32,21 @@ PROJECTS = {
     "glob_pattern": ("f_glob", {"mode": "pattern"}),
     "subplan_tree": ("f_subplan", {"inputs": "explicit"}),
     "chain": ("f_chain", {}),
+    "glob_cfg": ("f_glob", {"mode": "tree", "cfg": 1}),
+}
+# sequences over several watch phases: ("REBUILD",) asks for a rebuild in between, in both variants
+MULTI_PHASE = {
+    "glob_cfg": [
+        [("delete", "cfg.txt"), ("create", "data/c.txt"), ("REBUILD",), ("restore", "cfg.txt")],
+        [("create", "data/c.txt"), ("delete", "cfg.txt"), ("REBUILD",), ("restore", "cfg.txt")],
+        [("delete", "cfg.txt"), ("delete", "data/a.txt"), ("REBUILD",), ("restore", "cfg.txt")],
+        [("delete", "cfg.txt"), ("REBUILD",), ("create", "data/c.txt"), ("restore", "cfg.txt")],
+        [("delete", "cfg.txt"), ("REBUILD",), ("restore", "cfg.txt"), ("create", "data/c.txt")],
+        [("modify", "cfg.txt"), ("create", "data/c.txt"), ("REBUILD",), ("restore", "cfg.txt")],
+    ],
 }
 TARGETS = {
+    "glob_cfg": {"files": ["cfg.txt", "data/a.txt", "data/c.txt"], "dirs": ["data"]},
     "glob_tree": {"files": ["data/a.txt", "data/c.txt", "out/a.out"], "dirs": ["data", "out"]},
     "glob_pattern": {"files": ["data/a.txt", "data/c.txt", "out/b.out"], "dirs": ["data"]},
     "subplan_tree": {"files": ["sub/data/in.txt", "sub/out/s.txt"], "dirs": ["sub/data", "sub/out"]},
@@ -54,7 +68,11 @@ def op_menu(name):
 
 def apply_op(world, op, originals):
     kind, path = op[0], op[1]
-    if kind == "modify":
+    if kind == "restore":
+        world.write(path, originals[path])
+    elif kind == "create":
+        world.write(path, f"created by the user ({path})\n")
+    elif kind == "modify":
         world.write(path, f"modified by the user ({path})\n")
     elif kind == "delete":
         if world.exists(path):
@@ -100,8 +118,22 @@ def watch_run(files, cfg, ops, prefix, during_build=False, mode="rebuild"):
             return []
         busy = h.watcher.busy_watching.is_set() and not any(not g.fut.done() for g in sim.gates)
         nwatch = sum(1 for r in sim.reports if r[0] == "PHASE" and r[1] == "watch")
+        if state["stage"] == "midbuild":
+            if busy and nwatch > state["nwatch"] and sim.inotify_idle():
+                state["stage"] = "ops"
+            else:
+                return []
         if state["stage"] == "ops":
             allowed = (busy and sim.inotify_idle()) or (during_build and len(sim.running) > 0)
+            if state["i"] < len(ops) and ops[state["i"]][0] == "REBUILD":
+                if busy and sim.inotify_idle():
+                    def mid(s):
+                        state["i"] += 1
+                        state["stage"] = "midbuild"
+                        state["nwatch"] = nwatch
+                        s.loop.create_task(s.handler.start_build_phase())
+                    return [EnvEvent("rebuild (between two watch phases)", mid)]
+                return []
             if state["i"] < len(ops) and allowed:
                 def fn(s):
                     apply_op(s.world, ops[state["i"]], files)
@@ -178,6 +210,9 @@ def jobs(tier, seed):
         chunk = 6
         for lo in range(0, len(seqs), chunk):
             out.append({"name": name, "seqs": seqs[lo : lo + chunk], "bound": 0 if tier == "quick" else 1,
+                        "during_build": False})
+        if name in MULTI_PHASE:
+            out.append({"name": name, "seqs": MULTI_PHASE[name], "bound": 0 if tier == "quick" else 1,
                         "during_build": False})
         # single operations on static (source) files while the first build is still running
         src_ops = [op for op in menu if op[1] in TARGETS[name]["files"][:2] and op[0] in ("modify", "delete", "recreate")]
